@@ -4,6 +4,7 @@ C08 — `GeoBox.from_bbox` (resolution branch) on regions / resolutions / tolera
 extended model is C08's own resolution branch.
 -/
 import OdcGeo.Props.C20NonFinite
+import OdcGeo.Model.C08NonFinite
 
 namespace OdcGeo.C08
 open OdcGeo.C20 OdcGeo.C20.NF
@@ -46,6 +47,69 @@ theorem from_bbox_res_x_finite (l b r t rx ry tol : Rat) (snap : Option (Rat × 
     cases snapGrid b t ry (snap.map (·.2)) tol with
     | error e => rfl
     | ok q => rfl
+
+/-! ## shape-driven branches -/
+
+open OdcGeo.C08.NF in
+/-- **Shape-driven construction with snapping rejects a non-finite region** (any shape, anchor fractions, tolerance). -/
+theorem from_bbox_shape_x_snapped_rejected (l b r t : XF) (ny nx : Int) (sx sy tol : XF)
+    (h : isFinite l = false ∨ isFinite b = false ∨ isFinite r = false ∨ isFinite t = false) :
+    ∃ e, fromBboxShapeX l b r t ny nx (some (sx, sy)) tol = .error e := by
+  unfold fromBboxShapeX
+  cases h1 : NF.div (NF.sub r l) (ofInt nx) with
+  | error e => exact ⟨e, rfl⟩
+  | ok rx =>
+    cases h2 : NF.div (NF.neg (NF.sub t b)) (ofInt ny) with
+    | error e => exact ⟨e, rfl⟩
+    | ok ry =>
+      simp only [bind, Except.bind]
+      by_cases hx : isFinite l = false ∨ isFinite r = false
+      · obtain ⟨e, he⟩ := snap_grid_x_nonfinite_rejected l r rx (some sx) tol hx
+        exact ⟨e, by rw [he]⟩
+      · have hy : isFinite b = false ∨ isFinite t = false := by
+          rcases h with h | h | h | h
+          · exact absurd (Or.inl h) hx
+          · exact Or.inl h
+          · exact absurd (Or.inr h) hx
+          · exact Or.inr h
+        obtain ⟨e, he⟩ := snap_grid_x_nonfinite_rejected b t ry (some sy) tol hy
+        cases hgx : snapGridX l r rx (some sx) tol with
+        | error e' => exact ⟨e', rfl⟩
+        | ok p => exact ⟨e, by simp only [he]⟩
+
+open OdcGeo.C08.NF in
+/-- **As found: without snapping (`tight=True` / floating anchor) the shape-driven branch checks nothing** — a region
+with a `nan` or infinite coordinate comes back as a GeoBox whose transform contains `nan` / `inf`.  (Observation outside the
+property's quantifier — finite regions —, replayed by the correspondence.) -/
+theorem from_bbox_shape_x_floating_accepts_nonfinite :
+    fromBboxShapeX .nan (.fin 0) (.fin 4) (.fin 2) 2 4 none (.fin (1 / 100)) =
+      .ok ⟨2, 4, .nan, .fin (-1), .nan, .fin 2⟩ ∧
+    fromBboxShapeX (.fin 0) (.fin 0) .pinf (.fin 2) 2 4 none (.fin (1 / 100)) =
+      .ok ⟨2, 4, .pinf, .fin (-1), .fin 0, .fin 2⟩ := by decide +kernel
+
+open OdcGeo.C08.NF in
+/-- **A single-number `shape` rejects a non-finite region** (it goes through the resolution branch). -/
+theorem from_bbox_num_shape_x_rejected (l b r t q : XF) (snap : Option (XF × XF)) (tol : XF)
+    (h : isFinite l = false ∨ isFinite b = false ∨ isFinite r = false ∨ isFinite t = false) :
+    ∃ e, fromBboxNumShapeX l b r t q snap tol = .error e := by
+  unfold fromBboxNumShapeX
+  cases h1 : numShapeResX l b r t q with
+  | error e => exact ⟨e, rfl⟩
+  | ok res =>
+    simp only [bind, Except.bind]
+    by_cases hx : isFinite l = false ∨ isFinite r = false
+    · obtain ⟨e, he⟩ := snap_grid_x_nonfinite_rejected l r res (snap.map (·.1)) tol hx
+      exact ⟨e, by rw [he]⟩
+    · have hy : isFinite b = false ∨ isFinite t = false := by
+        rcases h with h | h | h | h
+        · exact absurd (Or.inl h) hx
+        · exact Or.inl h
+        · exact absurd (Or.inr h) hx
+        · exact Or.inr h
+      obtain ⟨e, he⟩ := snap_grid_x_nonfinite_rejected b t (NF.neg res) (snap.map (·.2)) tol hy
+      cases hgx : snapGridX l r res (snap.map (·.1)) tol with
+      | error e' => exact ⟨e', rfl⟩
+      | ok p => exact ⟨e, by simp only [he]⟩
 
 /-! ## non-vacuity -/
 
